@@ -6,3 +6,19 @@ claim('C16',
   note='Trusted: Coq kernel, extraction (ExtrOcamlBasic only), gen_tables.py, gcc, harness/h_enc.c, ocaml/d_enc.ml. char is signed (x86-64). Model tied to code by differential execution, not by a C semantics.',
   technique='Rocq proof by induction + finite table sweeps (vm_compute lifted by forallb_forall); tables translated from source; extracted-model correspondence',
   design='5.16')
+claim('C01',
+  text='Theorems (Coq 8.16, closed under the global context; premises: the ordering is transitive, antisymmetric and its Eq is a congruence; proved to hold for the default byte-wise ordering): '
+       'for every history of put/get/remove/clear/size/find_min/find_max the concrete table model (qtreetbl.c transcribed: LLRB 2-3-4 insertion and deletion on node objects with explicit Crash where the C code dereferences unchecked) '
+       'never crashes or exhausts fuel, returns exactly the observations of a strictly sorted association list, and its in-order contents equal that list (C01_refines; per-operation forms C01_put/get/remove/size/min/max). '
+       'Tie: extracted model, extracted specification and the implementation are run in lockstep on random histories (3 comparators, string/binary keys, empty values), >256-walk histories, large histories, and every put/remove from every reachable tree shape over 8 (quick) / 10 (thorough) keys; full coloured shape compared after every operation.',
+  note='Trusted: Coq kernel, extraction (ExtrOcamlBasic; PositiveMap bodies), gcc, h_tree.c, d_tree.ml, gen_consts.py (LLRB234 switch). Histories containing Walk/Nearest are covered by C03/C04. Model tied to the C text by differential execution.',
+  technique='Rocq refinement proof (invariant + induction over histories) over a transcribed LLRB model; lockstep differential execution of extracted model/spec vs implementation incl. bounded-exhaustive shape enumeration',
+  design='5.1')
+claim('C02',
+  text='Theorems: after every operation of every history (failed removals and replacements included) the table is a valid left-leaning red-black search tree: black root, valid red-black structure of one black height, '
+       'red right child only beside a red left child, keys strictly ascending (C02_invariant; C02_put_step/C02_remove_step from any valid tree, which also show the unchecked dereferences of flip/rotate never hit NULL); '
+       'the transcribed qtreetbl_check() returns 0 exactly on valid structures with a black root (C02_check_agrees); a lookup makes at most 2*log2(n+1) comparisons, stated as 2^cost <= (n+1)^2 (C02_lookup_cost). '
+       'The deletion proof needed the search order (shape preservation is key-dependent). Tie as for C01 plus qtreetbl_check(), an independent C invariant checker and a counting comparator after/around every operation.',
+  note='Trusted as C01. The independent checker in h_tree.c and qtreetbl_check() are monitors, not the reason the check passes.',
+  technique='Rocq inductive invariant proof (LLRB shape classes for put/remove/remove_min) + extracted-model lockstep with shape comparison',
+  design='5.2')
